@@ -1,9 +1,10 @@
 """Driver for LabelScheduleSource + TaskiqScheduler.on_ready (C16, label-based half).
 
 Scenario: {"cfg": {"tasks": [{"own": true, "entries": [{"k": "cron"|"time"|"both"|"invalid", "t": 1, "a": 3, "i": 0 | explicit id}, ...]}, ...]},
-           "ops": [["list"], ["fire", task_idx, pos]]}        # fire the pos-th listed schedule of that task (1-based, mod)
+           "ops": [["list"], ["fire", task_idx, pos], ["adopt", task_idx]]}   # fire the pos-th listed schedule of that task (1-based, mod);
+                                                                             # adopt: register a foreign task on the own broker
 Events: {"e": "list", "items": [{"task", "k", "t", "a"}]}, {"e": "fire", "task", "k", "t", "a"},
-        {"e": "kick", "task", "a", "ok": payload ok}, {"e": "noop"}
+        {"e": "kick", "task", "a", "ok": payload ok}, {"e": "noop"}, {"e": "adopt", "task"}
 """
 from __future__ import annotations
 
@@ -137,12 +138,32 @@ def run(scn: Dict[str, Any]) -> List[Dict[str, Any]]:
             return a
 
         def view(sts: List[Any]) -> List[Dict[str, Any]]:
-            return [{"task": int(s.task_name[1:]), "k": kind_of(s), "t": tid_of(s), "a": payload(s)} for s in sts]
+            # the order of TASKS in a listing is the registry's (a late registration comes last) and is not part of the property:
+            # items are grouped by task index, the declared order of each task's entries is kept (stable sort)
+            return sorted([{"task": int(s.task_name[1:]), "k": kind_of(s), "t": tid_of(s), "a": payload(s)} for s in sts], key=lambda d: d["task"])
 
+        adopted: set = set()
         for op in scn["ops"]:
             if op[0] == "list":
                 ev = dict(EV0)
                 ev.update({"e": "list", "items": view(listing())})
+                events.append(ev)
+            elif op[0] == "adopt":
+                # a task that so far belonged to another broker (or the shared registry) is registered, under the same name and
+                # with the same declared entries, on the source's own broker: from now on it is one of its own tasks
+                i = op[1]
+                ev = dict(EV0)
+                if not (1 <= i <= len(cfg["tasks"])) or cfg["tasks"][i - 1].get("own", True) or i in adopted:
+                    ev["e"] = "noop"
+                    events.append(ev)
+                    continue
+                adopted.add(i)
+
+                async def fn2(*a: Any, **k: Any) -> None:
+                    return None
+                fn2.__name__ = f"fn{i}"
+                own.register_task(fn2, task_name=f"t{i}", schedule=[entry_dict(e) for e in cfg["tasks"][i - 1]["entries"]], own=f"L{i}", **{f"k{i}": i})
+                ev.update({"e": "adopt", "task": i})
                 events.append(ev)
             elif op[0] == "fire":
                 sts = [s for s in listing() if s.task_name == f"t{op[1]}"]
